@@ -21,6 +21,8 @@ import (
 	"time"
 
 	"github.com/pdfcpu/pdfcpu/pkg/api"
+	"github.com/pdfcpu/pdfcpu/pkg/pdfcpu"
+	"github.com/pdfcpu/pdfcpu/pkg/pdfcpu/model"
 	"verif/harness/lib/h"
 )
 
@@ -42,6 +44,8 @@ type graphResult struct {
 	ListErr   string   `json:"listerr"`
 	Titles    []string `json:"titles"` // exported titles in preorder
 	Listed    []string `json:"listed"`
+	ReadErr   string   `json:"readerr"`   // pdfcpu.BookmarksForOutlineItem on the unvalidated context
+	ReadItems []string `json:"readitems"` // titles it returned (preorder)
 	Ms        int64    `json:"ms"`
 	Detail    string   `json:"detail"`
 	Where     string   `json:"where"` // innermost pdfcpu function at the time of a hang / crash
@@ -88,6 +92,16 @@ func graphPDF(c graphCase) []byte {
 	}
 	d.Set(cat, fmt.Sprintf("<< /Type /Catalog /Pages %d 0 R /Outlines %d 0 R >>", pages, root))
 	return d.Bytes()
+}
+
+// readRaw parses a file without validating (validation repairs or drops corrupt outlines).
+func readRaw(path string) (*model.Context, error) {
+	f, err := os.Open(path)
+	if err != nil {
+		return nil, err
+	}
+	defer f.Close()
+	return api.ReadContext(f, model.NewDefaultConfiguration())
 }
 
 func flatTitles(f []jsBM, out *[]string) {
@@ -151,6 +165,32 @@ func bmRobustChild(in string, start, stride int) {
 			for _, s := range ss {
 				r.Listed = append(r.Listed, strings.TrimSpace(s))
 			}
+		}
+		// the reader itself, on the raw (not validated, not repaired) graph
+		fmt.Fprintf(w, "BEGIN %d read\n", idx)
+		w.Flush()
+		r.ReadItems = []string{}
+		if ctx, err := readRaw(pdf); err != nil {
+			r.ReadErr = "read context: " + err.Error()
+		} else if err := ctx.EnsurePageCount(); err != nil {
+			r.ReadErr = "read context: " + err.Error()
+		} else if cat, err := ctx.Catalog(); err != nil {
+			r.ReadErr = "read context: " + err.Error()
+		} else if od, err := ctx.DereferenceDict(cat["Outlines"]); err != nil || od == nil {
+			r.ReadErr = fmt.Sprintf("read context: outlines: %v", err)
+		} else if first := od.IndirectRefEntry("First"); first == nil {
+			r.ReadErr = "no first item"
+		} else if bms, err := pdfcpu.BookmarksForOutlineItem(ctx, first, nil); err != nil {
+			r.ReadErr = err.Error()
+		} else {
+			var fl func(bs []pdfcpu.Bookmark)
+			fl = func(bs []pdfcpu.Bookmark) {
+				for _, b := range bs {
+					r.ReadItems = append(r.ReadItems, b.Title)
+					fl(b.Kids)
+				}
+			}
+			fl(bms)
 		}
 		r.Ms = time.Since(t0).Milliseconds()
 		b, _ := json.Marshal(r)
@@ -305,7 +345,7 @@ func bmRobust(in, out string, workers int, cpuBudget, wallLimit time.Duration) {
 				switch {
 				case hang != "":
 					if cur < len(cases) {
-						results[cur] = &graphResult{Idx: cur, Case: cases[cur], Outcome: "hang", Op: op, Titles: []string{}, Listed: []string{},
+						results[cur] = &graphResult{Idx: cur, Case: cases[cur], Outcome: "hang", Op: op, Titles: []string{}, Listed: []string{}, ReadItems: []string{},
 							Detail: hang, Where: culprit(stderr.String())}
 					}
 					restart = cur + workers
@@ -315,7 +355,7 @@ func bmRobust(in, out string, workers int, cpuBudget, wallLimit time.Duration) {
 					if i := strings.IndexByte(first, '\n'); i > 0 {
 						first = first[:i]
 					}
-					results[cur] = &graphResult{Idx: cur, Case: cases[cur], Outcome: "crash", Op: op, Titles: []string{}, Listed: []string{},
+					results[cur] = &graphResult{Idx: cur, Case: cases[cur], Outcome: "crash", Op: op, Titles: []string{}, Listed: []string{}, ReadItems: []string{},
 						Detail: err.Error() + ": " + first, Where: culprit(tr)}
 					restart = cur + workers
 				case err != nil:
